@@ -11,6 +11,9 @@ package main
 import (
 	"fmt"
 	"sort"
+	"strings"
+	"sync"
+	"sync/atomic"
 
 	"github.com/benbjohnson/litestream"
 	. "verifharness/hx"
@@ -18,7 +21,67 @@ import (
 
 const traceEnabled = true
 
-func traceReset() { litestream.VerifTraceReset(true) }
+func traceReset() {
+	litestream.VerifTraceReset(true)
+	tpMu.Lock()
+	lastCkptMode = map[*litestream.DB]string{}
+	modeAtSnap = map[uint64]string{}
+	tpMu.Unlock()
+}
+
+// Trace-point dispatcher: remembers, for every snapshot position that is captured, the mode
+// of the last checkpoint of that database that got as far as its sequence bump (the point
+// after which a failing call leaves the WAL restarted or checkpointed but not copied), so
+// that a snapshot which does not match its position can be attributed to that mode.
+var (
+	tpMu         sync.Mutex
+	lastCkptMode = map[*litestream.DB]string{}
+	modeAtSnap   = map[uint64]string{}
+	tpExtra      atomic.Pointer[func(obj any, ev string)]
+)
+
+func init() { litestream.VerifTracePoint = tracePoint }
+
+func setTracePointExtra(f func(obj any, ev string)) {
+	if f == nil {
+		tpExtra.Store(nil)
+		return
+	}
+	tpExtra.Store(&f)
+}
+
+func tracePoint(obj any, ev string) {
+	switch ev {
+	case "pt.ckpt.bump":
+		if db, ok := obj.(*litestream.DB); ok && db != nil {
+			mode := db.SyncDiagnostic().CheckpointMode
+			tpMu.Lock()
+			lastCkptMode[db] = mode
+			tpMu.Unlock()
+		}
+	case "snap.pos":
+		if db, ok := obj.(*litestream.DB); ok && db != nil {
+			if pos, err := db.Pos(); err == nil {
+				tpMu.Lock()
+				modeAtSnap[uint64(pos.TXID)] = lastCkptMode[db]
+				tpMu.Unlock()
+			}
+		}
+	}
+	if f := tpExtra.Load(); f != nil {
+		(*f)(obj, ev)
+	}
+}
+
+// snapMode: mode of the last checkpoint that reached its bump before the snapshot of TXID n
+func snapMode(n uint64) string {
+	tpMu.Lock()
+	defer tpMu.Unlock()
+	if m := modeAtSnap[n]; m != "" {
+		return strings.ToUpper(m)
+	}
+	return "UNKNOWN"
+}
 
 // event -> (code, resource); codes as in coq/Conc/Entry.v
 var traceCodes = map[string][2]int64{
